@@ -300,6 +300,22 @@ func Emit(r lib.Repo, e *lib.Emitter) {
 			n += len(ss)
 			ok = ok && AllProp(ss)
 		}
+		if fd := f.Func("docBlocksWriter", "flushBlock"); fd != nil {
+			// where the offset of a block comes from, and what advances it
+			var facts []string
+			ast.Inspect(fd.Body, func(n ast.Node) bool {
+				if a, ok := n.(*ast.AssignStmt); ok && len(a.Lhs) == 1 {
+					switch l := f.Render(a.Lhs[0]); l {
+					case "w.BlockOffsets", "w.currentBlockOffset":
+						facts = append(facts, l+" "+a.Tok.String()+" "+f.Render(a.Rhs[0]))
+					}
+				}
+				return true
+			})
+			e.Strs("flushBlockOffsets", facts, "docBlocksWriter.flushBlock: how block offsets are recorded and advanced")
+		} else {
+			e.Missing("flushBlockOffsets", "flushBlock not found")
+		}
 		e.Bool("sdocsWriterPropagates", ok && n > 0, fmt.Sprintf("writeDocsInOrder .. docBlocksWriter.Flush: all %d `err != nil` sites return the error", n))
 	}
 
